@@ -49,18 +49,21 @@ def run_trace(P, pid, tier, rng):
     rc, out = core.lake_build([f"Cgm.Trace.{m}" for m in mods])
     # end-to-end corollaries (property clauses stated about the regenerated kernels): built when the obligations they
     # compose still hold; a failure there is reported like a failed obligation
-    e2e = os.path.exists(f"{LEAN}/Cgm/E2E/{pid}.lean")
+    emods = sorted(os.path.basename(f)[:-5] for f in _glob.glob(f"{LEAN}/Cgm/E2E/{pid}*.lean")
+                   if re.fullmatch(r"%s[a-z]?" % pid, os.path.basename(f)[:-5]))
+    e2e = bool(emods)
     res["e2e_theorems"] = 0
     if rc == 0 and e2e:
-        espans = _theorem_spans(f"{LEAN}/Cgm/E2E/{pid}.lean")
+        espans_of = {m: _theorem_spans(f"{LEAN}/Cgm/E2E/{m}.lean") for m in emods}
+        espans = [x for m in emods for x in espans_of[m]]
         res["e2e_theorems"] = len(espans)
-        rc_e, out_e = core.lake_build([f"Cgm.E2E.{pid}"])
+        rc_e, out_e = core.lake_build([f"Cgm.E2E.{m}" for m in emods])
         if rc_e != 0:
             hit = False
-            for m in re.finditer(r"error: (?:\./)?Cgm/E2E/%s\.lean:(\d+):" % pid, out_e):
-                ln = int(m.group(1))
+            for m in re.finditer(r"error: (?:\./)?Cgm/E2E/(%s[a-z]?)\.lean:(\d+):" % pid, out_e):
+                ln = int(m.group(2))
                 owner = None
-                for (start, name) in espans:
+                for (start, name) in espans_of.get(m.group(1), []):
                     if start <= ln:
                         owner = name
                 if owner:
@@ -73,6 +76,10 @@ def run_trace(P, pid, tier, rng):
             apath = f"Cgm/Audit/E{pid}.lean"
             if not os.path.exists(f"{LEAN}/{apath}"):
                 raise MachineryError(f"missing {apath}")
+            asrc = open(f"{LEAN}/{apath}").read()
+            for m in emods:
+                if f"import Cgm.E2E.{m}" not in asrc:
+                    raise MachineryError(f"{apath} does not import Cgm.E2E.{m}")
             rc2, out2 = core.run(["lake", "env", "lean", apath], cwd=LEAN, timeout=900)
             if rc2 != 0:
                 raise MachineryError(f"audit of end-to-end theorems failed:\n{out2[-2000:]}")
